@@ -29,7 +29,7 @@ def register(reg, repo):
         "coroutine": ["object"],
     })
     reg.pyfuncs["prio"] = _prio
-    reg.disjoint_classes += [("BatchBase", "BatchItemBase"), ("BatchBase", "AsyncTask"), ("BatchItemBase", "AsyncTask")]
+    reg.disjoint_classes += [("Future", "AsyncTask"), ("ConstFuture", "AsyncTask"), ("ErrorFuture", "AsyncTask"),("BatchBase", "BatchItemBase"), ("BatchBase", "AsyncTask"), ("BatchItemBase", "AsyncTask")]
     reg.presence_fields.update({"_task", "_traceback", "asynq", "async", "is_pure_async_fn", "fn",
                                 "gi_frame", "_active_task", "value"})
 
@@ -216,6 +216,7 @@ def register(reg, repo):
     ]:
         reg.add(C(name, params=params, modifies=[], post=[], xpost=None, trusted=True, returns_type=rt,
                   note="diagnostic sink: total, touches only stdout/stderr"))
+    reg.global_calls["sys.exc_info"] = "env.exc_info"
     for text in ["traceback.print_exc", "stdout.flush", "stderr.flush", "stdout.write", "stderr.write",
                  "print"]:
         reg.global_calls[text] = "env.diag"
